@@ -321,6 +321,16 @@ def _run_queries(case, V, sos, tables, hist_b, chunk_sizes, positions, idx, t_pr
     classes.append("idx_" + idx_layout)
     got, _ = lm(hist, fresh_prev(), idx=idx_t)
     _compare("lm(hist, idx=%r)" % (idx[:8],), got, exp_vec)
+    # the same positions counted from the end (documented range [-T - 1, T]), for some or all elements, as tensors
+    for which, neg in (("all", [i - T - 1 for i in idx]), ("mixed", [i - T - 1 if (b + i) % 2 else i for b, i in enumerate(idx)])):
+        got, _ = lm(hist, fresh_prev(), idx=_idx_tensor(neg, idx_layout))
+        _compare("lm(hist, idx=%r) (indices from the end, %s)" % (neg[:8], which), got, exp_vec)
+    for s in sorted(set(positions[:2] + positions[-1:])):
+        got, _ = lm(hist, fresh_prev(), idx=torch.tensor(s - T - 1))
+        _compare("lm(hist, idx=tensor(%d))" % (s - T - 1), got, exp[s])
+        got, _ = lm(hist, fresh_prev(), idx=torch.tensor([s - T - 1]))
+        _compare("lm(hist, idx=tensor([%d]))" % (s - T - 1), got, exp[s])
+    classes.append("idx_negative_tensor")
     if mode and layout != "expanded":
         g_rows = _garbled(hist_b, idx, n, mode, junk)
         if g_rows != hist_b:
@@ -450,7 +460,7 @@ subcheck("C06", "katz", _lm_strategy, 700, 20000,
          required_classes=["missing_entry", "hit_top", "ctx_absent", "sos_out_of_vocab", "missing_suffix",
                            "oov_sos_in_context", "listed_neginf",
                            "hist_offset_view", "hist_transposed", "hist_column_slice", "hist_strided_rows",
-                           "hist_expanded", "idx_offset", "idx_strided", "garbage_past_idx", "garbage_before_window",
+                           "hist_expanded", "idx_offset", "idx_strided", "idx_negative_tensor", "garbage_past_idx", "garbage_before_window",
                            "values_scaled_up", "values_scaled_down", "train_mode", "warm_other_batch",
                            "dicts_reused", "reload_into_used_instance"])(_lm_check)
 
